@@ -243,6 +243,22 @@ def run_C01(ck):
     rng = Rng(ck.seed).fork('C01')
     n = 400 if ck.tier == 'quick' else 4000
     streams = gen_lzma_streams(rng, n, big_every=12 if ck.tier == 'quick' else 8) + gen_wrap_streams(rng, 4 if ck.tier == 'quick' else 30, ('marker', 'sized', 'sized+marker'))
+    # far distances: 1.1 MiB of output, then matches at 2^k - 1, 2^k, 2^k + 1 for k = 7..20 - every distance slot up to 41 with
+    # its direct and align bits
+    for rep_ in range(1 if ck.tier == 'quick' else 4):
+        lc, lp, pb = rand_props(rng)
+        pbld = ProgBuilder(1 << 21)
+        for _ in range(40): pbld.lit(rng.below(256))
+        exact_size_syms(pbld, (1 << 20) + 70000 - pbld.n)
+        for k_ in range(7, 21):
+            for d_ in ((1 << k_) - 1, 1 << k_, (1 << k_) + 1, (3 << (k_ - 1)) + rng.below(1 << (k_ - 1))):
+                if d_ > pbld.n: continue
+                pbld.match(d_, rng.choice([2, 3, 5, 18, 19]))
+                if rng.chance(1, 3): pbld.lit(rng.below(256))
+        e_ = ref_encode(['ref_lzma lc=%d lp=%d pb=%d dict=%d size=none delta=0 prog=%s' % (lc, lp, pb, 1 << 21, pbld.text(True))])[0]
+        if e_ is None: raise InfraError('reference encoder rejected the far-distance program')
+        streams.append({'props': (lc, lp, pb), 'dict': 1 << 21, 'style': 'marker', 'n': pbld.n, 'kinds': dict(pbld.kinds), 'big': False, 'nsyms': len(pbld.syms),
+                        'bytes': e_[0], 'out': e_[1], 'ref': 'far distances up to 2^20'})
     cases = []
     for s in streams:
         b = s['bytes']
